@@ -5,7 +5,7 @@ import os
 import sys
 
 from facts import walk, render, role, is_call, null_test, AnalysisBroken, VERIF
-from engines import ff, nth_arg, receiver
+from engines import ff, nth_arg, receiver, enclosing_conditions
 import issues
 import tables
 
@@ -305,5 +305,105 @@ def run(F, rep):
     # ------------------------------------------------------------------ every element of a collection is handled
     from engines import rule_visit_all
     rule_visit_all(F, rep, 'C04.Y1', lambda g: g.file.endswith('/validator.cpp'), 25, 'validator.cpp')
+
+    # ------------------------------------------------------------------ E: independent checks are all performed
+    rep.rule('C04.E1', 'a validator function that makes several checks in sequence makes all of them: a `return` that is taken without reporting anything may only skip checks that are about the very thing its condition tested '
+                       '(e.g. "the variable has no units" skips the comparison of units); if a later check does not mention that thing it is skipped for unrelated reasons and its rule violations go unreported')
+
+    def _capable(st):
+        return any(c.get('k') == 'Call' and (c.get('fn') in ('addIssue', 'addMathmlIssue') or (c.get('fn') or '').startswith(('validate', 'check'))) for c in walk(st))
+    n_e = 0
+    for g in vfs.values():
+        if g.j.get('ret') != 'void':
+            continue
+        body = next((n for n in g.walk() if n.get('k') == 'Compound'), None)
+        top = body.get('c', []) if body is not None else []
+        for k_, st in enumerate(top):
+            rets = [r for r in walk(st) if r.get('k') == 'Return' and g.enclosing_lambda(r) is None and not any(a.get('k') in ('For', 'RangeFor', 'While', 'Do') for a in g.ancestors(r))]
+            later = [x for x in top[k_ + 1:] if _capable(x)]
+            if not rets or not later:
+                continue
+            for r in rets:
+                blk = g.parent(r)
+                sibs = blk.get('c', []) if blk is not None else []
+                before = sibs[:sibs.index(r)] if r in sibs else []
+                if any(c.get('k') == 'Call' and c.get('fn') in ('addIssue', 'addMathmlIssue') for b in before for c in walk(b)):
+                    continue   # error exit after a report
+                n_e += 1
+                conds = [cnd for cnd, br, st2 in enclosing_conditions(g, r)]
+                subj_d = {x['d'] for cnd in conds for x in walk(cnd) if x.get('k') == 'Ref' and x.get('dk') in ('local',)}
+                subj_t = {render(x) for cnd in conds for x in walk(cnd) if x.get('k') == 'Call' and x.get('mc') and not x.get('opc') and len(x.get('c', [])) == 1}
+                unrelated = [x for x in later if not (any(y.get('k') == 'Ref' and y.get('d') in subj_d for y in walk(x)) or any(t_ in render(x) for t_ in subj_t))]
+                rep.check(not unrelated, 'C04.E1', '%s|return@%d' % (g.name, sum(1 for y in g.walk() if y.get('k') == 'Return' and y.get('l', 0) < r.get('l', 0))), g.where(r),
+                          '%s returns silently when `%s`; %d later check(s) that have nothing to do with that test are skipped as well (first at line %s)' % (g.short, ' and '.join(render(c_)[:40] for c_ in conds), len(unrelated), unrelated[0].get('l') if unrelated else ''),
+                          'only checks about the tested thing are skipped')
+    rep.ok('C04.E1', 'scan', None, '%d silent early returns in front of further checks in validator.cpp (1 confirmed: validateEquivalenceUnits)' % n_e)
+
+    # ------------------------------------------------------------------ N: XML name characters (the ids the validator accepts)
+    rep.rule('C04.N1', 'the character classes behind every id check equal the XML 1.1 productions NameStartChar and NameChar: the comparison chains of isNameStartChar/isNameChar are evaluated (no execution: the expression only compares '
+                       'its argument with constants, so the constants and their neighbours are representative) and compared with the intervals of the specification, encoded as the packed UTF-8 values the code uses')
+    START = [(0x3A, 0x3A), (0x41, 0x5A), (0x5F, 0x5F), (0x61, 0x7A), (0xC0, 0xD6), (0xD8, 0xF6), (0xF8, 0x2FF), (0x370, 0x37D), (0x37F, 0x1FFF), (0x200C, 0x200D), (0x2070, 0x218F), (0x2C00, 0x2FEF), (0x3001, 0xD7FF),
+             (0xF900, 0xFDCF), (0xFDF0, 0xFFFD), (0x10000, 0xEFFFF)]
+    EXTRA = [(0x2D, 0x2D), (0x2E, 0x2E), (0x30, 0x39), (0xB7, 0xB7), (0x300, 0x36F), (0x203F, 0x2040)]
+
+    def _pack(cp):
+        return int.from_bytes(chr(cp).encode('utf-8'), 'big')
+
+    def _member(tbl, cp):
+        return any(a <= cp <= b for a, b in tbl)
+
+    def _ev(e, val, pd):
+        while e.get('k') in ('Paren', 'Cast', 'Construct') and len(e.get('c', [])) == 1:
+            e = e['c'][0]
+        if e.get('k') == 'Bin' and e.get('op') in ('||', '&&'):
+            a, b = _ev(e['c'][0], val, pd), _ev(e['c'][1], val, pd)
+            return (a or b) if e['op'] == '||' else (a and b)
+        if e.get('k') == 'Bin' and e.get('op') in ('<=', '<', '>=', '>', '==', '!='):
+            def term(x):
+                while x.get('k') in ('Paren', 'Cast', 'Construct') and len(x.get('c', [])) == 1:
+                    x = x['c'][0]
+                if x.get('k') == 'Ref' and x.get('d') == pd:
+                    return val
+                if x.get('k') == 'Int':
+                    return int(x['v'])
+                raise AnalysisBroken('C04.N1: operand `%s` is neither the argument nor a constant' % render(x)[:40])
+            a, b = term(e['c'][0]), term(e['c'][1])
+            return {'<=': a <= b, '<': a < b, '>=': a >= b, '>': a > b, '==': a == b, '!=': a != b}[e['op']]
+        if e.get('k') == 'Bool':
+            return bool(e.get('v'))
+        raise AnalysisBroken('C04.N1: cannot evaluate `%s`' % render(e)[:60])
+    fs_ = F.fn1('libcellml::isNameStartChar')
+    fn_ = F.fn1('libcellml::isNameChar')
+    rs_ = [r for r in fs_.walk() if r.get('k') == 'Return' and r.get('c')]
+    rn_ = [r for r in fn_.walk() if r.get('k') == 'Return' and r.get('c') and r['c'][0].get('k') != 'Bool']
+    delegates = any(c.get('k') == 'Call' and c.get('fn') == 'isNameStartChar' for c in fn_.walk())
+    if len(rs_) != 1 or len(rn_) != 1 or not delegates:
+        raise AnalysisBroken('isNameStartChar / isNameChar: shape not recognised (%d / %d value returns, delegation %s)' % (len(rs_), len(rn_), delegates))
+    # representative code points: interval ends of the specification and their neighbours, plus every constant of the code and its neighbours (decoded)
+    pts = set()
+    for a, b in START + EXTRA:
+        pts |= {a - 1, a, a + 1, b - 1, b, b + 1}
+    consts = {int(x['v']) for g_ in (fs_, fn_) for x in g_.walk() if x.get('k') == 'Int'}
+    packed_pts = set()
+    for cp in pts:
+        if 0 < cp < 0x110000 and not (0xD800 <= cp <= 0xDFFF):
+            packed_pts.add((cp, _pack(cp)))
+    by_pack = {}
+    for cp in range(1, 0x3000):
+        by_pack[_pack(cp)] = cp
+    for c_ in consts:
+        for d_ in (-1, 0, 1):
+            if c_ + d_ in by_pack:
+                packed_pts.add((by_pack[c_ + d_], c_ + d_))
+    for nm, g_, ret, want in (('isNameStartChar', fs_, rs_[0], lambda cp: _member(START, cp)), ('isNameChar', fn_, rn_[0], lambda cp: _member(START, cp) or _member(EXTRA, cp))):
+        pd = g_.params[0]['d']
+        wrong = []
+        for cp, pk in sorted(packed_pts):
+            got = _ev(ret['c'][0], pk, pd)
+            if nm == 'isNameChar':
+                got = got or _ev(rs_[0]['c'][0], pk, fs_.params[0]['d'])
+            if got != want(cp):
+                wrong.append('U+%04X %s' % (cp, 'accepted' if got else 'rejected'))
+        rep.check(not wrong, 'C04.N1', nm, g_.where(ret), '%s disagrees with the XML 1.1 production on %s' % (nm, ', '.join(wrong[:8])), 'agrees on %d representative code points' % len(packed_pts))
 
 
